@@ -103,8 +103,8 @@ def c01(tier):
     js.append(J("closure_pentagons", "C03_counts.c", ["-DPENTS", "-DRES=3"], unwind=17, us={"harness.0": 15, "harness.1": 13, "setH3Index.0": 17}, est=5, bound="getPentagons, all int res"))
     js.append(J("closure_res0", "C03_counts.c", ["-DRES0"], unwind=17, est=5, bound="getRes0Cells"))
     js += up7_lemma(10)
-    for r, maxd in ((0, 3), (1, 8), (2, 15), (3, 50)):
-        t = "quick" if r <= 1 else "thorough"
+    for r, maxd in ((0, 3), (1, 8), (2, 15), (3, 50), (4, 110), (5, 300)):
+        t = "quick" if r <= 3 else "thorough"
         j = J("closure_faceijk_r%d" % r, "C01_closure.c", ["-DRES=%d" % r, "-DMAXD=%d" % maxd, "-DUPB=(1<<10)"], unwind=r + 2, us={"_faceIjkToH3.0": r + 2}, unit_defs=UP7_DEFS, est=60 + 200 * r, mem="M", tier=t, timeout=3000,
               bound="_faceIjkToH3 on every ijk+ address with i+j+k <= %d of every face at res %d" % (maxd, r))
         js += with_witness(j, tier=t) if r == 1 else [j]
@@ -324,6 +324,7 @@ def c07(tier):
     js += with_witness(J("bbox_algebra", "C07_poly.c", ["-DBBOX"], unwind=2, est=30, bound="all in-range doubles (two boxes and a point)"))
     js += with_witness(J("bboxloop_3", "C07_poly.c", ["-DBBOXLOOP", "-DNV=3"], unwind=5, est=30, bound="all loops of 3 in-range vertices"))
     js += [J("bboxloop_4", "C07_poly.c", ["-DBBOXLOOP", "-DNV=4"], unwind=6, est=60, tier="thorough", bound="all loops of 4 in-range vertices")]
+    js += with_witness(J("polyglue", "C07_polyglue.c", [], unwind=5, est=10, stubs={"polygon": ["pointInsideGeoLoop", "cellBoundaryCrossesGeoLoop", "bboxFromGeoLoop"]}, bound="outer loop + 0-2 holes, any loop-level results"))
     js += with_witness(J("flags", "C07_poly.c", ["-DFLAGS"], unwind=3, est=10, stubs=GEO_STUBS, bound="all 2^32 flag words x all int resolutions"))
     js += with_witness(J("empty", "C07_poly.c", ["-DEMPTY"], unwind=5, est=10, stubs=GEO_STUBS, bound="all valid modes x resolutions"))
     return js
@@ -340,6 +341,7 @@ def c15(tier):
     js = []
     js += with_witness(J("capacity_4", "C15_bound.c", ["-DNSEQ=4"], unwind=8, est=10, stubs={"polyfill": ["iterInitPolygon", "iterStepPolygon", "iterDestroyPolygon"]}, bound="sequences <= 4 cells"))
     js += [J("capacity_6", "C15_bound.c", ["-DNSEQ=6"], unwind=10, est=20, stubs={"polyfill": ["iterInitPolygon", "iterStepPolygon", "iterDestroyPolygon"]}, bound="sequences <= 6 cells")]
+    js += with_witness(J("polyglue", "C07_polyglue.c", [], unwind=5, est=10, stubs={"polygon": ["pointInsideGeoLoop", "cellBoundaryCrossesGeoLoop", "bboxFromGeoLoop"]}, bound="outer loop + 0-2 holes, any loop-level results"))
     js += with_witness(J("flags", "C07_poly.c", ["-DFLAGS"], unwind=3, est=10, stubs=GEO_STUBS, bound="all 2^32 flag words x all int resolutions"))
     js += with_witness(J("bbox_algebra", "C07_poly.c", ["-DBBOX"], unwind=2, est=30, bound="all in-range doubles"))
     return js
@@ -518,7 +520,7 @@ def c17(tier):
       stubs=["GLUE: isPentagon, _h3ToFaceIjk, _faceIjkToVerts, _faceIjkPentToVerts, _adjustOverageClassII, _adjustPentVertOverage"])
 def c19(tier):
     js = []
-    js += with_witness(J("glue_faces", "C19_faces.c", ["-DGLUE"], unwind=8, est=10, witness_expect=["overflow", "ok"],
+    js += with_witness(J("glue_faces", "C19_faces.c", ["-DGLUE"], unwind=8, est=10, witness_expect=["overflow", "ok"], checks="ub",
                          stubs={"h3Index": ["isPentagon", "_h3ToFaceIjk"], "faceijk": ["_faceIjkToVerts", "_faceIjkPentToVerts", "_adjustOverageClassII", "_adjustPentVertOverage"]},
                          bound="any cell word, any vertex faces, any conversion error"))
     js += up7_lemma(10)
